@@ -392,7 +392,7 @@ fn run_e2e(c: &E2eCase) -> Outcome {
 	let mut child = match cmd.spawn() {
 		Ok(c) => c,
 		Err(e) => {
-			o.fail("harness:wx-spawn", e.to_string());
+			o.fail("env:wx-spawn", e.to_string());
 			return o;
 		}
 	};
